@@ -711,7 +711,7 @@ class ScriptGen:
     def __init__(self, rng, live, deep):
         self.rng, self.live, self.deep = rng, live, deep
         self.ops, self.outs, self.dead = [], [], None
-        self.build_size = self.build_depth = 0
+        self.build_size = self.build_depth = self.build_nonconst = 0
         r = rng.below(20)
         self.wide = r == 0 or r == 1
         if self.wide:
@@ -937,6 +937,7 @@ class ScriptGen:
         memo = {}
         self.build_size = self.size()
         self.build_depth = max([self.v.nest_depth(n, memo) for n in self.v.vols] or [0])
+        self.build_nonconst = sum(1 for n in self.v.vols if self.v.tab[n] not in (0, self.v.full))
         if not self.v.has_alias() and rng.chance(2, 5):
             self.emit("demorgan")
         for _ in range(rng.range(8, 50 if self.deep else 32)):
